@@ -33,7 +33,7 @@ def init_worker(tier):
 
 @st.composite
 def cases(draw, tier):
-    cfg = draw(mg.swapper_config(tier))
+    cfg = draw(mg.swapper_config(tier, allow_empty=True))
     names = [n for n, _ in mg.all_layouts(cfg)]
     nl = len(names)
     steps = draw(st.lists(st.tuples(st.integers(0, nl - 1), st.booleans()), min_size=1, max_size=8))
